@@ -25,7 +25,9 @@ func extractProcess(f *Facts) {
 	// ---- events over bt.config
 	files, _ := filepath.Glob(filepath.Join(f.repo, "token", "*.go"))
 	sort.Strings(files)
-	var ev []string
+	// raw event sequences per method, with "C:<name>" where another method of the same receiver is called
+	raw := map[string][]string{}
+	var order []string
 	for _, p := range files {
 		if strings.HasSuffix(p, "_test.go") {
 			continue
@@ -57,6 +59,20 @@ func extractProcess(f *Facts) {
 							case "saveConfig":
 								seq = append(seq, "S")
 								return false
+							default:
+								// arguments first (they are evaluated before the call), then the callee
+								for _, arg := range x.Args {
+									ast.Inspect(arg, func(m ast.Node) bool {
+										if sx, ok := m.(*ast.SelectorExpr); ok {
+											if id2, ok := sx.X.(*ast.Ident); ok && id2.Name == recv && sx.Sel.Name == "config" {
+												seq = append(seq, "U")
+											}
+										}
+										return true
+									})
+								}
+								seq = append(seq, "C:"+se.Sel.Name)
+								return false
 							}
 						}
 					}
@@ -67,10 +83,42 @@ func extractProcess(f *Facts) {
 				}
 				return true
 			})
-			if len(seq) > 0 {
-				ev = append(ev, "fn", fd.Name.Name)
-				ev = append(ev, seq...)
+			raw[fd.Name.Name] = seq
+			order = append(order, fd.Name.Name)
+		}
+	}
+	// a helper that uses the object its caller has loaded is part of its callers: calls are inlined
+	var expand func(name string, depth int) []string
+	expand = func(name string, depth int) []string {
+		var out []string
+		for _, e := range raw[name] {
+			if strings.HasPrefix(e, "C:") {
+				if depth > 0 {
+					out = append(out, expand(e[2:], depth-1)...)
+				}
+				continue
 			}
+			out = append(out, e)
+		}
+		return out
+	}
+	called := map[string]bool{}
+	for _, seq := range raw {
+		for _, e := range seq {
+			if strings.HasPrefix(e, "C:") {
+				called[e[2:]] = true
+			}
+		}
+	}
+	var ev []string
+	for _, name := range order {
+		// entry points: exported methods, and unexported ones nobody in the package calls
+		if !ast.IsExported(name) && called[name] {
+			continue
+		}
+		if seq := expand(name, 5); len(seq) > 0 {
+			ev = append(ev, "fn", name)
+			ev = append(ev, seq...)
 		}
 	}
 	if len(ev) == 0 {
